@@ -51,6 +51,7 @@ PROPS['C18'] = dict(
 PROPS['C12'] = dict(
     title='Edit distance equals the reference metric and operations() is a minimal script',
     groups=[dict(template='c12_edit.rs', rlimit=400)],
+    input_search=True,
     claim='',
     not_covered=[],
     assumptions=[],
